@@ -1003,6 +1003,61 @@ def check_k8(chk, m, cfg, L):
                                e.inst.loc, fn.name)
 
 
+def check_getch_sentinel(chk, m):
+    """K9: console_getch / ringbuf_get return an int in which -1 means 'nothing there' and 0..255 is a character.  The test
+    for -1 has to be made on that int: once the value has been narrowed to a char, 'nothing' and the character 0xFF are the
+    same value (signed char) or 'nothing' can no longer be recognised at all (unsigned char, as on ARM: the wait never
+    waits and the console consumes invented 0xFF characters)."""
+    n = 0
+    for fn in m.defined_functions():
+        srcs = {}
+        for blk in fn.order:
+            for i in blk.insts:
+                if i.op == "call" and i.callee in ("console_getch", "ringbuf_get") and i.name:
+                    srcs[i.name] = ("full", i)
+        if not srcs:
+            continue
+        changed = True
+        while changed:
+            changed = False
+            for blk in fn.order:
+                for i in blk.insts:
+                    if i.is_dbg() or not i.name or i.name in srcs:
+                        continue
+                    ops = [v for v, b in i.incoming] if i.op == "phi" else list(i.ops)
+                    st = [srcs[o.name] for o in ops if o.k == "inst" and o.name in srcs]
+                    if not st:
+                        continue
+                    if i.op == "trunc" and int(i.ty[1:]) < 32:
+                        srcs[i.name] = ("narrowed", st[0][1])
+                        changed = True
+                    elif i.op in ("sext", "zext", "phi", "select", "freeze"):
+                        srcs[i.name] = ("narrowed" if any(x[0] == "narrowed" for x in st) else "full", st[0][1])
+                        changed = True
+        for blk in fn.order:
+            for i in blk.insts:
+                if i.op != "icmp":
+                    continue
+                a, b = i.ops
+                if a.is_const_int():
+                    a, b = b, a
+                if not (b.is_const_int() and a.k == "inst" and a.name in srcs):
+                    continue
+                bits = int(b.ty[1:])
+                if b.uval & ((1 << bits) - 1) != (1 << bits) - 1:
+                    continue
+                n += 1
+                kind, call = srcs[a.name]
+                chk.ob("K9.getch-sentinel", "%s: %s result tested against -1" % (fn.name, call.callee), kind == "full",
+                       "the 'nothing there' test is made on the int result" if kind == "full" else
+                       "the result is narrowed to a char before it is compared with -1: the character 0xFF is taken for 'nothing there' where "
+                       "char is signed, and where char is unsigned (ARM) the comparison is never true - the wait never waits and the console "
+                       "consumes 0xFF characters that nobody typed", i.loc, fn.name)
+    if n == 0:
+        chk.ob("K9.getch-sentinel", "console.c", True, "no getch result is compared with -1 in this tree (emptiness is decided some other way; "
+               "K7 and the ring rules cover the delivery)", "librfn/console.c", "console_run")
+
+
 def run(chk):
     chk.explanation = (
         "Static memory-safety and protocol analysis of console.c over its IR in both CONFIG_NO_FIBRE settings: loop-free "
@@ -1022,6 +1077,7 @@ def run(chk):
     chk.rule("K8", "do_tokenize, evaluated per character class, agrees step by step with the reference transducer (split at unquoted white space; "
              "a quoted argument opens after a gap and closes at the SAME quote character; at most lengthof(argv) entries) on every "
              "line whose tokenisation the property determines; argv[0] is the line start; unused entries are empty strings")
+    chk.rule("K9", "the 'nothing there' result (-1) of console_getch / ringbuf_get is tested on the int, before any narrowing to char")
     chk.rule("K7", "console_putchar / console_process put into the ring before waking / running the console; console_eval only feeds the ring and wakes the fibre")
     chk.assumptions += [
         "LP64 data model only (no 32-bit sysroot in this image): on ILP32 the scratch union is 80 bytes, not 160",
@@ -1042,6 +1098,8 @@ def run(chk):
         check_k5(chk, m, cfg)
         check_k6_k7(chk, m, cfg)
         check_k8(chk, m, cfg, L)
+        if cfg == "default":
+            check_getch_sentinel(chk, m)
     # every delivery route goes through the console's ring buffer: its producer/consumer discipline is C05's
     from . import C05
     chk.rule_prefix = "ring."
